@@ -58,6 +58,8 @@ def consts_for(ctx, which):
         if ctx.quick:
             return {"MaxHosts": 3, "MaxDCs": 2, "MaxRacks": 2, "MaxRing": 3, "MaxRF": 2, "Lens": {2, 3}, "MaxAlters": 1, "MaxMoves": 1, "MaxOps": 1, "ZeroStyles": {"omitted", "explicit"}}
         return {"MaxHosts": 3, "MaxDCs": 2, "MaxRacks": 2, "MaxRing": 3, "MaxRF": 2, "Lens": {2, 3}, "MaxAlters": 2, "MaxMoves": 2, "MaxOps": 2, "ZeroStyles": {"omitted", "explicit"}}
+    if which == "racks3":       # quick only: five-token rings over up to 5 hosts in 3 racks (a datacenter with more racks than its rf covers)
+        return {"MaxHosts": 5, "MaxDCs": 2, "MaxRacks": 3, "MaxRing": 5, "MaxRF": 3, "Lens": {5}, "MaxAlters": 0, "MaxMoves": 0, "MaxOps": 0, "ZeroStyles": {"omitted"}}
     if which == "witness":
         return {"MaxHosts": 3, "MaxDCs": 2, "MaxRacks": 2, "MaxRing": 4, "MaxRF": 3, "Lens": {4}, "MaxAlters": 1, "MaxMoves": 1, "MaxOps": 1, "ZeroStyles": {"omitted"}}
     return {"MaxHosts": 6, "MaxDCs": 2, "MaxRacks": 3, "MaxRing": 8, "MaxRF": 4, "Lens": {5, 6, 7, 8}, "MaxAlters": 0, "MaxMoves": 0, "MaxOps": 0, "ZeroStyles": {"omitted"}}
@@ -173,6 +175,22 @@ def run(ctx):
         ok = tally.add(ctx, inst)
         if ok and is_nontrivial(inst) and n % 1500 == 7:
             ctx.sample({k: inst[k] for k in ("ring", "dc", "rack", "strat", "byKey")})
+
+    if ctx.quick:                # the thorough tier's exhaustive domain and random instances contain these layouts already
+        rconsts = consts_for(ctx, "racks3")
+        rcfg = tlc.write_cfg(os.path.join(ctx.scratch, "PlacementRacks3.cfg"), constants=rconsts, invariants=INVARIANTS, deadlock=False)
+        rres, rstates = tlc.enumerate_states("Placement", rcfg, ctx.scratch, coverage=False, timeout=300)
+        ctx.add_tlc(rres, "exhaustive:racks3")
+        if rres.violation:
+            ctx.violation("TLC: invariant %s violated in Placement.tla (three-rack family)" % rres.invariant,
+                          replay={"trace": [s for _, s in rres.trace()]}, signature="spec:" + str(rres.invariant))
+            return
+        rinsts = [P.instance_of(s) for s in done_states(rstates)]
+        del rstates
+        ctx.note("instances_racks3", len(rinsts))
+        for inst in rinsts:
+            if len(set(inst["rack"])) >= 3:          # the two-rack layouts are in the family above
+                tally.add(ctx, inst)
 
     # ---------------------------------------------------------------- histories: settings altered, hosts moved
     aconsts = consts_for(ctx, "alter")
